@@ -96,7 +96,8 @@ Theorem C08_reported_success_is_true :
   grow (e_line s) = true -> report_ok s term idx success -> search_key c = true ->
   exists t' i' d' su' s',
     (forall rec, isearch_branch U cfg rec backup mark term idx d success c s = rec t' i' d' su' s')
-    /\ grow (e_line s') = true /\ e_hist s' = e_hist s /\ report_ok s' t' i' su'.
+    /\ grow (e_line s') = true /\ e_hist s' = e_hist s /\ report_ok s' t' i' su'
+    /\ (e_line s' = e_line s \/ In (buf (e_line s')) (e_hist s)).
 Proof. exact step_keeps_report. Qed.
 Print Assumptions C08_reported_success_is_true.
 
@@ -129,6 +130,21 @@ Theorem C08_search_starts_checked :
           isearch_loop_checked U cfg fuel (buf (e_line s), pos (e_line s)) mark [] (hlen_e s - 1) Reverse true) s.
 Proof. exact search_starts_checked. Qed.
 Print Assumptions C08_search_starts_checked.
+
+(* THE WHOLE SEARCH. For every sequence of keys read inside it (any number of characters, Backspaces, repeated search keys in
+   both directions, then whatever ends it), started on the line [orig] with a line shown that is [orig] or a stored entry:
+   the stored history is untouched; an abort leaves exactly the line and cursor of [orig]; any other ending leaves [orig]
+   or a stored history entry as the line *)
+Theorem C08_whole_search :
+  forall (U : UData) (cfg : config) fuel backup mark term idx d success (orig : lb) (s : est) res (s' : est),
+  grow orig = true -> backup = (buf orig, pos orig) -> pos orig <= blen (buf orig) ->
+  shown_ok orig s -> report_ok s term idx success ->
+  isearch_loop U cfg fuel backup mark term idx d success s = EOk res s' ->
+  e_hist s' = e_hist s
+  /\ (res = None -> buf (e_line s') = buf orig /\ pos (e_line s') = pos orig)
+  /\ (forall c, res = Some c -> e_line s' = orig \/ In (buf (e_line s')) (e_hist s)).
+Proof. exact search_result. Qed.
+Print Assumptions C08_whole_search.
 
 Example C08_report_check_example :
   contains_at_b [97; 98]%N [120; 97; 98; 99; 120]%N 1 = true /\ contains_at_b [97; 98]%N [120; 97; 98; 99; 120]%N 2 = false.
